@@ -64,7 +64,8 @@ static void trap_one(double vm, double ac, double de, double p0, double p1, doub
         note(2, ep / (EPS * scale));
         note(3, ev / (EPS * (vm + 1)));
         if (!(ep <= 1e4 * EPS * scale)) { R.viol("trap|" + d + "|end-position", "the motion ends at " + num((double)a_trajtrap_pos(&c, te)) + " instead of the final position " + num(p1), in); return; }
-        if (!(ev <= 1e4 * EPS * (vm + 1))) { R.viol("trap|" + d + "|end-velocity", "the velocity just before the end is " + num((double)a_trajtrap_vel(&c, te)) + " but the recorded final velocity is " + num((double)c.v1), in); return; }
+        // (the instant one ulp before T is not T: the velocity still differs from the final one by the deceleration times that ulp)
+        if (!(ev <= 1e4 * EPS * (vm + 1) + 2 * std::max(std::fabs((double)c.ac), std::fabs((double)c.de)) * ((double)T - (double)te))) { R.viol("trap|" + d + "|end-velocity", "the velocity just before the end is " + num((double)a_trajtrap_vel(&c, te)) + " but the recorded final velocity is " + num((double)c.v1), in); return; }
     }
     // continuity across the phase boundaries
     for (a_real tb : {c.ta, c.td})
@@ -155,7 +156,7 @@ static void bell_one(double jm, double am, double vm, double p0, double p1, doub
         note(8, ep / (EPS * scale));
         note(9, ev / (EPS * (vm + 1)));
         if (!(ep <= tolp)) { R.viol("bell|" + d + "|end-position", "the motion ends at " + num((double)a_trajbell_pos(&c, te)) + " instead of the final position " + num(p1), in); return; }
-        if (!(ev <= K * EPS * (vm + 1))) { R.viol("bell|" + d + "|end-velocity", "the velocity just before the end is " + num((double)a_trajbell_vel(&c, te)) + " but the recorded final velocity is " + num((double)c.v1), in); return; }
+        if (!(ev <= K * EPS * (vm + 1) + 2 * am * ((double)T - (double)te))) { R.viol("bell|" + d + "|end-velocity", "the velocity just before the end is " + num((double)a_trajbell_vel(&c, te)) + " but the recorded final velocity is " + num((double)c.v1), in); return; }
     }
     double tb[8] = {0, taj, ta - taj, ta, ta + tv, tt - td + tdj, tt - tdj, tt};
     for (int i = 1; i < 7; ++i)
